@@ -356,6 +356,18 @@ template <class Data> static Result runCase(const Case& c) {
   }
   for (auto& kv : got) failIf(kv.first < 0 || kv.first >= P, "interface entry for a rank outside the communicator");
 
+  // a wrong interface makes the communication itself meaningless (message sizes no longer match: MPI would abort or
+  // hang); report the interface and stop here, on all ranks together
+  {
+    int bad = fail.empty() ? 0 : 1, anyBad = 0;
+    MPI_Allreduce(&bad, &anyBad, 1, MPI_INT, MPI_MAX, MPI_COMM_WORLD);
+    if (anyBad) {
+      res.impl = join(obs.begin(), obs.end(), ";") + ";interface-wrong";
+      res.oracle = fail.empty() ? "ok" : "FAIL " + fail;
+      return res;
+    }
+  }
+
   // ---- observation 2: Selection / UncachedSelection of the source set with the source attribute set
   {
     bool agree = true;
